@@ -110,11 +110,12 @@ Record channels := mkChan {
 Definition read_fault_msg : str := lit "injected read fault".
 Definition write_fault_msg : str := lit "injected write fault".
 
-(** split at the first '\n': (line, rest after the newline, found?) *)
+(** split at the first '\n': (line, rest after the newline, found?); [rev_append acc []] is [rev acc]
+    ([rev_alt]) in linear time, which matters for input lines of 10^5 characters *)
 Fixpoint take_line (s : str) (acc : str) : str * str * bool :=
   match s with
-  | [] => (rev acc, [], false)
-  | c :: t => if c =? 10 then (rev acc, t, true) else take_line t (c :: acc)
+  | [] => (rev_append acc [], [], false)
+  | c :: t => if c =? 10 then (rev_append acc [], t, true) else take_line t (c :: acc)
   end.
 
 (** [Environment::input] *)
